@@ -36,6 +36,8 @@ CLAIMED = {
  'C13': dict(text="Theorems on the value-chain model: a new reference reads its own value; every earlier reference keeps its node and value under any number of further pushes; push drops nothing, push_mut releases exactly the earlier values once, Drop releases the rest once; for racing try_insert loops under ANY schedule the chain only grows at the end (earlier nodes untouched) and a successful pusher's reference denotes a node holding its own value forever after. Tie: random make_ref/make_mut sequences on ValueChain, original and clone compared line by line with the model (reads of all retained references after every op, drop log); all schedules of 2-4 threads lending through a shared reference (yield before every try_insert) and an 8-thread uninstrumented stress, judged by an oracle.",
              ref="DESIGN.md §4.6, §5 C13", technique="Lean 4 proof (induction over pushes and over schedules) + differential correspondence + schedule exploration/stress with oracle",
              note=RUNTIME_NOTE + " Memory safety proper is trusted to forbid(unsafe_code), the borrow checker and once_cell."),
+ 'C11': dict(text="Theorems (every world): teardown and Drop on an unwinding thread return ok for originals and clones alike, whatever the expectations, log, live clones and creator thread; dropping a whole scope while unwinding never panics; a panicking call inside a scope owning mocks, and a panicking by-value provided method, unwind cleanly; a panicking matcher leaves the state untouched and deeper user panics leave the log untouched; translator-regenerated table of MutexIsh::locked closures contains only closed bodies (no user code under a lock). Tie: crash-point x topology x thread x met/unmet grid executed in a child process, abort detected by wait status and bisected; traces compared with the model. Partial: panics inside argument Debug rendering and return-value Clone are not in the grid yet.",
+             ref="DESIGN.md §4.4, §5 C11", technique="Lean 4 proof over lifecycle machine + lock-site translator + fault-injection grid in child processes with abort detection"),
 }
 
 checks = []
